@@ -526,7 +526,7 @@ fn convert_sweep(ctx: &mut Ctx) {
     }
     // self-loops are lines of the list like any other; vertex names that look like keywords of
     // graph file formats
-    for (names, loops, maxlen) in [(["a", "b", "c"], true, 2usize), (["graph1", "digraph", "strict_x"], false, 2), (["node", "edge", "subgraph"], true, 2)] {
+    for (names, loops, maxlen) in [(["a", "b", "c"], true, 2usize), (["graph1", "digraph", "strict_x"], false, 2), (["node", "edge", "subgraph"], true, 2), (["pump;1", "valve", "a b"], false, 2), (["tab\tname", "x", "semi;colon"], false, 1)] {
         let mut ps = vec![];
         for a in names {
             for b in names {
@@ -578,6 +578,29 @@ fn convert_sweep(ctx: &mut Ctx) {
 
 /// a list with more than 65 536 distinct vertex names (32 770 lines, no reversed duplicate):
 /// `--convert -u` must reproduce it line for line
+/// large requests (the random choices are not scripted here — every run must satisfy the
+/// invariants whatever they are): V = 1100 / 1500 with sparse and dense edge counts
+fn large_requests(ctx: &mut Ctx) {
+    for (i, (v, e, u)) in [(1100usize, 5000usize, false), (1500, 20000, false), (1500, 20000, true), (1025, 20000, false), (2000, 10, true)].into_iter().enumerate() {
+        if ctx.shard != (6 + i as u64) % ctx.nshards {
+            continue;
+        }
+        let case = json!({"part": "large-request", "v": v, "e": e, "undirected": u});
+        ctx.begin_case(|| case.clone());
+        ctx.count("evaluations", 1);
+        ctx.count("large_requests", 1);
+        let mut args = vec![v.to_string(), e.to_string()];
+        if u {
+            args.push("-u".into());
+        }
+        let r = run_bin("random_graph_gen", &args, None, &[]);
+        let m = if u { v * (v - 1) / 2 } else { v * (v - 1) };
+        if let Err(msg) = judge_generated(&r, v, e, u, false, m) {
+            ctx.violation(format!("{TAG} random_graph_gen {}", args.join(" ")), msg, case);
+        }
+    }
+}
+
 fn convert_many_vertices(ctx: &mut Ctx) {
     if ctx.shard != 5 % ctx.nshards {
         return;
@@ -724,6 +747,7 @@ fn run(ctx: &mut Ctx) {
     convert_sweep(ctx);
     convert_sweep_large(ctx);
     convert_many_vertices(ctx);
+    large_requests(ctx);
     unscripted_supplement(ctx);
     crate::cli::cleanup_scratch();
 }
@@ -732,6 +756,18 @@ fn replay(ctx: &mut Ctx, c: &Value) {
     let edges = || -> Vec<(String, String)> { c["edges"].as_array().map(|a| a.iter().map(|e| (e[0].as_str().unwrap_or("").to_string(), e[1].as_str().unwrap_or("").to_string())).collect()).unwrap_or_default() };
     match c["part"].as_str() {
         Some("complete") => complete_sweep(ctx),
+        Some("large-request") => {
+            let (v, e, u) = (c["v"].as_u64().unwrap_or(2) as usize, c["e"].as_u64().unwrap_or(0) as usize, c["undirected"].as_bool().unwrap_or(false));
+            let mut args = vec![v.to_string(), e.to_string()];
+            if u {
+                args.push("-u".into());
+            }
+            let r = run_bin("random_graph_gen", &args, None, &[]);
+            let m = if u { v * (v - 1) / 2 } else { v * (v - 1) };
+            if let Err(msg) = judge_generated(&r, v, e, u, false, m) {
+                ctx.violation(format!("{TAG} random_graph_gen {}", args.join(" ")), msg, c.clone());
+            }
+        }
         Some("many-vertices") => {
             let mut c2 = Ctx::new("C18", ctx.tier, ctx.seed, 5, 16);
             convert_many_vertices(&mut c2);
